@@ -284,4 +284,45 @@ theorem c17_src_loops_take_one_label :
   simp only [Gen.plLoopNexts, Gen.Default.plLoopNexts]
   decide
 
+/-! ### colour limits (translated `calc_color_norm`) -/
+
+/-- where a limit of the translated normalisation comes from, in the model's terms -/
+def limSrcOf : Option LimV → LimSrc
+  | some (.arg _ _) => .given
+  | some (.zlim _) => .zlim
+  | some _ => .data
+  | none => .unset
+
+/-- **colour limits on the source**: the limits the translated `calc_color_norm` hands to the normalisation: the caller's
+`vmin` / `vmax` whenever given (zero included), else — for a numeric colour quantity — `zlims[0]` / `zlims[1]` if given, else
+the minimum / maximum of the FINITE data; 0.0 / 1.0 for a non-numeric one.  Never `None`. -/
+theorem c17_src_colour_limits (numeric : Bool) (vmin vmax : Option Bool) (zlimLo zlimHi : Bool) :
+    (∀ z, vmin = some z → (Gen.plColorNorm numeric vmin vmax zlimLo zlimHi).1 = some (.arg 0 z)) ∧
+    (∀ z, vmax = some z → (Gen.plColorNorm numeric vmin vmax zlimLo zlimHi).2 = some (.arg 1 z)) ∧
+    (vmin = none → (Gen.plColorNorm numeric vmin vmax zlimLo zlimHi).1 =
+      some (if numeric then (if zlimLo then .zlim 0 else .dataMin) else .const "0.0")) ∧
+    (vmax = none → (Gen.plColorNorm numeric vmin vmax zlimLo zlimHi).2 =
+      some (if numeric then (if zlimHi then .zlim 1 else .dataMax) else .const "1.0")) := by
+  simp only [Gen.plColorNorm, Gen.Default.plColorNorm]
+  refine ⟨?_, ?_, ?_, ?_⟩
+  · intro z h; subst h; simp
+  · intro z h; subst h; simp
+  · intro h; subst h; cases numeric <;> cases zlimLo <;> simp
+  · intro h; subst h; cases numeric <;> cases zlimHi <;> simp
+
+/-- the translated limits are the model's `colourLimits`: `c17_colour_limits` speaks about the source -/
+theorem c17_src_colour_limits_refine (call : Call) :
+    (limSrcOf (Gen.plColorNorm (zlimsApply call) (call.vmin.map (·.isZero)) (call.vmax.map (·.isZero)) call.zlimLo call.zlimHi).1,
+     limSrcOf (Gen.plColorNorm (zlimsApply call) (call.vmin.map (·.isZero)) (call.vmax.map (·.isZero)) call.zlimLo call.zlimHi).2) =
+      colourLimits call := by
+  simp only [Gen.plColorNorm, Gen.Default.plColorNorm, colourLimits, limitSource, Gen.vminDefaulted, Gen.Default.vminDefaulted,
+    Gen.vmaxDefaulted, Gen.Default.vmaxDefaulted]
+  generalize zlimsApply call = num
+  rcases hv : call.vmin with _ | ⟨a⟩ <;> rcases hw : call.vmax with _ | ⟨b⟩ <;> cases num <;> cases call.zlimLo <;>
+    cases call.zlimHi <;> simp [limSrcOf]
+
+example : Gen.plColorNorm true (some true) none false true = (some (.arg 0 true), some (.zlim 1)) := by decide
+example : Gen.plColorNorm true none none false false = (some .dataMin, some .dataMax) := by decide
+example : Gen.plColorNorm false none (some false) true true = (some (.const "0.0"), some (.arg 1 false)) := by decide
+
 end PlotPrep
